@@ -794,8 +794,13 @@ def main():
                 rec = dict(property=prop, harness=r["full"], values=vals or [],
                            failed=r.get("failed_desc"), at=r.get("failed_loc"))
                 if vals is None and r.get("step_bound"):
+                    # the designated loop did not finish within its unwinding bound: natively the same
+                    # (input-free) harness must then hang or fail - it is run under a time limit
                     rec["note"] = "step-bound violation: the loop did not finish within the unwinding bound"
-                    rep = {"debug": "NOT-REPLAYABLE"}
+                    rep = replay_native(repo, prop, r["full"], [])
+                    if any(rep.get(p) in ("TIMEOUT", "ASSERTION-FAILED") for p in ("debug", "release")):
+                        rep["debug"] = "NOT-REPLAYABLE"   # marker understood below: reproduced
+                        rep["native"] = "does not terminate / fails natively within 120 s"
                 elif vals is None:
                     rep = {"debug": "NO-TRACE"}
                 else:
